@@ -101,6 +101,8 @@ def native_law_replay(name):
                 v = rng.randint(0, 2, 2).astype(np.int32)
             elif name in ("Normal", "MultivariateNormalDiag"):
                 p = np.stack([rng.randn(2) * 3, np.exp(rng.randn(2))]).astype(np.float32)
+                if t in (9, 10, 11):   # extreme scales (float32 products of scales under- / overflow, sums of logs do not)
+                    p[1] = {9: [1e-25, 3e-24], 10: [1e25, 4e24], 11: [1e-30, 1e30]}[t]
                 v = (p[0] + p[1] * rng.randn(2) * (1 if t < 6 else 6)).astype(np.float32)
             else:
                 shape = () if name == "SquashedNormal" else (2,)
@@ -112,15 +114,27 @@ def native_law_replay(name):
                 frac = rng.uniform(0, 1, shape) if t % 3 else rng.choice([1e-7, 1e-6, 3e-7, 1 - 1e-6, 1 - 2e-7], size=shape)   # values inside and next to the bounds
                 v = (lo + (hi - lo) * frac).astype(np.float32)
             cases.append((jnp.asarray(p, f32), jnp.asarray(v)))
-        for p, v in cases:
+        for ci_, (p, v) in enumerate(cases):
+            extreme = name in ("Normal", "MultivariateNormalDiag") and ci_ in (9, 10, 11)   # there only lerax-vs-law identity is compared (float32 coherence clauses are ill-conditioned)
             real, spec = mk_real(p), real_spec(p)
             obs = {}
             for m in ("log_prob", "prob"):
                 a, b = np.asarray(getattr(real, m)(v), np.float64), np.asarray(getattr(spec, m)(v), np.float64)
                 if not np.allclose(a, b, rtol=1e-4, atol=1e-5, equal_nan=True):
                     obs[m] = dict(lerax=a.tolist(), law=b.tolist())
+            for m in ("entropy", "mode", "mean"):
+                try:
+                    a = np.asarray(getattr(real, m)(), np.float64)
+                except NotImplementedError:
+                    continue
+                try:
+                    b = np.asarray(getattr(spec, m)(), np.float64)
+                except NotImplementedError:
+                    continue
+                if a.shape != b.shape or not np.allclose(a, b, rtol=1e-4, atol=1e-5, equal_nan=True):
+                    obs[m] = dict(lerax=a.tolist(), law=b.tolist())
             lp, pr = np.asarray(real.log_prob(v), np.float64), np.asarray(real.prob(v), np.float64)
-            if np.all(np.isfinite(lp)) and not np.allclose(pr, np.exp(lp), rtol=1e-3, atol=1e-6):
+            if not extreme and np.all(np.isfinite(lp)) and not np.allclose(pr, np.exp(lp), rtol=1e-3, atol=1e-6):
                 obs["prob_vs_exp_log_prob"] = dict(prob=pr.tolist(), exp_log_prob=np.exp(lp).tolist())
             key = jax.random.key(5)
             s, slp = real.sample_and_log_prob(key)
@@ -132,7 +146,7 @@ def native_law_replay(name):
             if name.startswith("Squashed"):   # next to the bounds the float32 inverse of the squashing is ill-conditioned: the clause is replayed on interior samples only
                 fr = (np.asarray(s, np.float64) - np.asarray(p[3], np.float64)) / (np.asarray(p[2], np.float64) - np.asarray(p[3], np.float64))
                 interior = bool(np.all((fr > 1e-2) & (fr < 1 - 1e-2)))
-            if interior and np.all(np.isfinite(lps)) and np.all(np.isfinite(np.asarray(slp))) and not np.allclose(lps, np.asarray(slp, np.float64), rtol=1e-3, atol=1e-3):
+            if interior and not extreme and np.all(np.isfinite(lps)) and np.all(np.isfinite(np.asarray(slp))) and not np.allclose(lps, np.asarray(slp, np.float64), rtol=1e-3, atol=1e-3):
                 obs["log_prob_of_returned_sample"] = dict(returned=np.asarray(slp).tolist(), log_prob_of_sample=lps.tolist(), sample=np.asarray(s).tolist())
             if obs:
                 return dict(reproduced=True, route="R1 (real lerax law vs the real distreqx law on the same parameters; coherence clauses)", inputs=dict(law=name, params=np.asarray(p).tolist(), value=np.asarray(v).tolist()), observed=obs)
@@ -159,7 +173,7 @@ def unit_wrappers(S):
                     S.fact(f"{name}.{m}/not-defined", True, function=fn, what=f"{m} is not defined for this law (raises NotImplementedError both in lerax and distreqx)")
                     continue
             names_r = sorted({c.name for c in ctx.calls})
-            S.prove(f"{name}.{m}/is-the-laws-own", ctx, kit.tree_eq(real, spec), function=fn + "." + m, replay=rp,
+            S.prove(f"{name}.{m}/is-the-laws-own", ctx, kit.tree_eq(real, spec), function=fn + "." + m, replay=rp, candidate_only=True,
                     what=f"{name}(params).{m} is exactly the described law's {m} on the given parameters (structure: {names_r[0].split('.')[1] if names_r else '?'}...)")
     # squashing: support within [low, high] - the REAL distreqx bijector code, traced through
     from distreqx import bijectors as RB
